@@ -31,10 +31,20 @@ Invert             == LET r == Red(ScaleQ(den, Conj(num)), Norm2(num)) IN
 (* store the same quaternion in the other component order *)
 Restore            == ord' = (IF ord = "H" THEN "S" ELSE "H") /\ UNCHANGED <<num, den>> /\ depth' = depth + 1
 
+(* derive a new object from the register (copy, view, slice, numpy copy): same quaternion, *)
+(* same storage order -- the object changes, the abstract state does not                  *)
+DeriveHow == {"copy", "view", "slice", "np.copy"}
+Derive(how)        == UNCHANGED <<num, den, ord>> /\ depth' = depth + 1
+(* in-place normalisation; rational exactly when |num/den| is an integer s *)
+Normalize          == \E s \in 1..64 : /\ s * s * den * den = Norm2(num)
+                                        /\ LET r == Red(num, s * den) IN num' = r[1] /\ den' = r[2]
+                                        /\ UNCHANGED ord /\ depth' = depth + 1
 (* read the components (w, x, y, z) of the register: no change *)
 Observe            == UNCHANGED <<num, den, ord>> /\ depth' = depth + 1
 
 Next == \/ Observe
+        \/ \E h \in DeriveHow : Derive(h)
+        \/ Normalize
         \/ \E r \in MulRoutes, v \in Gen : MulRight(r, v) \/ MulLeft(r, v)
         \/ \E r \in ConjRoutes : Conjugate(r)
         \/ Invert
@@ -50,6 +60,9 @@ Laws2     == \A v \in Gen : /\ LawNormMul(num, v) /\ LawAntiHom(num, v) /\ LawAn
                             /\ LawLeftRight(num, v) /\ LawLeftRight(v, num)
 Laws3     == \A v, w \in Gen : LawAssoc(num, v, w) /\ LawAssoc(v, num, w) /\ LawAssoc(v, w, num)
 InverseLaw == LawInverse(num)
+(* after Normalize the register is a versor: action property *)
+NormalizeGivesVersor == [][ (\E s \in 1..64 : s * s * den * den = Norm2(num) /\ num' = Red(num, s * den)[1] /\ den' = Red(num, s * den)[2])
+                            => Norm2(num') = den' * den' ]_vars
 (* TLC evaluates invariants of initial states on one thread; the heavy triple law is     *)
 (* therefore checked on the (parallel) successors                                        *)
 Laws3AtObs == depth >= 1 => Laws3
